@@ -126,7 +126,13 @@ def translate(src: Path) -> dict:
     num = find_class(ntree, 'NumberDuplicateStrategy')
     if class_const(num, 'PATTERN') != ' \\((\\d+)\\)' or [b.id for b in num.bases if isinstance(b, ast.Name)] != ['DuplicateNamingStrategy']:
         raise Refuse('NumberDuplicateStrategy.PATTERN / base class changed')
-    expect('NumberDuplicateStrategy.apply', stmts(find_func(num.body, 'apply')), [(True, NUMDUP_APPLY)])
+    bounded = list(NUMDUP_APPLY)
+    bounded[5] = ('if indices:\n    taken_indices = set(indices)\n    next_index = min(taken_indices)\n'
+                  '    while next_index in taken_indices:\n        next_index += 1')
+    nb = expect('NumberDuplicateStrategy.apply', stmts(find_func(num.body, 'apply')), [(False, NUMDUP_APPLY), (True, bounded)])
+    out.append('(* NumberDuplicateStrategy.apply computes the lowest free index above the smallest one by walking the taken indices (true)\n'
+               '   or by materialising set(range(min, max + 2)) (false: same value, memory proportional to the SPAN of the indices) *)\n'
+               f'Definition numdup_bounded : bool := {"true" if nb else "false"}.\n\n')
     if [n.name for n in num.body if isinstance(n, ast.FunctionDef)] != ['apply']:
         raise Refuse('NumberDuplicateStrategy defines other methods than apply')
     expect('chain_strategies', stmts(find_func(ntree.body, 'chain_strategies')), [(True, CHAIN)])
